@@ -291,7 +291,8 @@ def search_loop_p_vc():
             adv, pw = cur["adv"], cur["pw"]
             I2.ex.oblige("next_state_is_the_new_model_state_reindexed_by_the_global_source", z3.And(z3.BoolVal(state is cur["in_next"] and hasattr(idx, "elem") and len(idx.shape) == 1), z(idx.shape[0]) == N * W,
                                                                                                    z3.Implies(z3.And(0 <= N0, N0 < N, 0 <= K0, K0 < W), z(idx.elem(N0 * W + K0)) == N0 * pw + adv["S"](N0, K0))))
-            return Tok("extracted")
+            cur["extracted"] = Tok("extracted")
+            return cur["extracted"]
 
         def advance(I2, a, kw):
             """callee contract = the postcondition of C04.P.advance_step (lengths given, scores possibly -inf)"""
@@ -366,6 +367,7 @@ def search_loop_p_vc():
                     if "adv" not in cur:
                         raise ip.Unsupported("the step did not call beam_search_advance")
                     adv, lsf = cur["adv"], cur["ls"]
+                    I.ex.oblige("state_carried_into_the_next_step_is_the_reindexed_one", z3.BoolVal(cur.get("extracted") is not None and st1["prev"] is cur.get("extracted")))
                     S0, S1 = adv["S"](N0, K0), adv["S"](N0, K1)
                     # ghost assignment: the genealogy of step t is what this step did
                     ghost = lambda n, k, sv, v: z3.And(SRC(t, n, k) == adv["S"](n, k), TOK(t, n, k) == adv["W"](n, k), LSM(t, n, sv, v) == lsf(n, sv, v))
